@@ -236,6 +236,15 @@ func (x *Exec) applySpec(s *State, spec *FuncSpec, evName string, vars map[strin
 		}
 		x.emit(s, "pre", shortName(spec.Name)+"."+c.Label, nil, g, c)
 	}
+	// values the callee's contract binds to its internal calls are existential witnesses here
+	for _, b := range spec.Binds {
+		if _, ok := vars[b.Name]; ok || b.Type == "" {
+			continue
+		}
+		if t, err := x.P.lookupType(b.Type); err == nil {
+			vars[b.Name] = x.freshVal(s, t, "witness."+b.Name)
+		}
+	}
 	pre := copyHeap(s.heap)
 	for _, a := range spec.Assigns {
 		x.havocAssign(s, env, a)
